@@ -24,11 +24,44 @@ import (
 //	pt <R> <J> <TG> <rounds> => <truesBad> <keep0> <keep1> <keepN> <early0> <earlyN> <racy0> <racy1> <racyN> <badarg>
 //	     per round a fresh event, R registrar goroutines x J callbacks (some unsubscribed at once, some registering a
 //	     child), TG Trigger callers released together; truesBad = rounds in which not exactly one Trigger returned true
+//	hc <G> <K> <rounds> => <calls> <distinct> <twice>
+//	     per round G goroutines call Hook K times each at the same time, then one Trigger
 //	hw <G> <K> <H> => <T> <unordered> <f1,s2,uf,us,c> ...
 //	     G x K Trigger calls, H goroutines hooking (and partly unhooking) meanwhile; per hook the logical-clock window
 
 func waitTimeout(wg *sync.WaitGroup) bool {
 	return guarded(wg.Wait)
+}
+
+// panics collects panics of stress goroutines (code under test), reported as oracle failures afterwards.
+type panics struct {
+	mu  sync.Mutex
+	all []string
+}
+
+// goSafe starts f as a goroutine of wg; a panic inside is recorded instead of killing the harness.
+func (p *panics) goSafe(wg *sync.WaitGroup, f func()) {
+	wg.Add(1)
+	go func() {
+		defer wg.Done()
+		defer func() {
+			if e := recover(); e != nil {
+				p.mu.Lock()
+				p.all = append(p.all, fmt.Sprint(e))
+				p.mu.Unlock()
+			}
+		}()
+		f()
+	}()
+}
+
+func (p *panics) report(w *world, section string) {
+	p.mu.Lock()
+	defer p.mu.Unlock()
+	if len(p.all) > 0 {
+		w.fail("panic", fmt.Sprintf("%d goroutines of the %s stress run panicked, first: %s", len(p.all), section, p.all[0]),
+			map[string]string{"oracle": "panic", "section": section})
+	}
 }
 
 func atoiAll(f []string) ([]int, bool) {
@@ -91,16 +124,16 @@ func (w *world) execMT(f []string) (string, string) {
 		e.Hook(func(int) { counts[i].Add(1) }, ho...)
 	}
 	var wg sync.WaitGroup
+	var pn panics
+	defer pn.report(w, "mt")
 	start := make(chan struct{})
 	for j := 0; j < g; j++ {
-		wg.Add(1)
-		go func() {
-			defer wg.Done()
+		pn.goSafe(&wg, func() {
 			<-start
 			for x := 0; x < k; x++ {
 				e.Trigger(x)
 			}
-		}()
+		})
 	}
 	close(start)
 	sig := map[string]string{"oracle": "hang", "api": "event.Trigger", "mode": "stress"}
@@ -158,12 +191,12 @@ func (w *world) execPT(f []string) (string, string) {
 		win.Store(-1)
 		var trues atomic.Int64
 		var wg sync.WaitGroup
+		var pn panics
+		defer pn.report(w, "pt")
 		var start atomic.Bool
 		for a := 0; a < r; a++ {
 			a := a
-			wg.Add(1)
-			go func() {
-				defer wg.Done()
+			pn.goSafe(&wg, func() {
 				for !start.Load() {
 					runtime.Gosched()
 				}
@@ -187,13 +220,11 @@ func (w *world) execPT(f []string) (string, string) {
 						c.early = !trigBegun.Load()
 					}
 				}
-			}()
+			})
 		}
 		for a := 0; a < tg; a++ {
 			a := a
-			wg.Add(1)
-			go func() {
-				defer wg.Done()
+			pn.goSafe(&wg, func() {
 				for !start.Load() {
 					runtime.Gosched()
 				}
@@ -205,7 +236,7 @@ func (w *world) execPT(f []string) (string, string) {
 					trues.Add(1)
 					win.Store(int64(100 + a))
 				}
-			}()
+			})
 		}
 		start.Store(true)
 		if !waitTimeout(&wg) {
@@ -294,12 +325,12 @@ func (w *world) execHW(f []string) (string, string) {
 		})
 	}
 	var wg sync.WaitGroup
+	var pn panics
+	defer pn.report(w, "hw")
 	start := make(chan struct{})
 	for a := 0; a < g; a++ {
 		a := a
-		wg.Add(1)
-		go func() {
-			defer wg.Done()
+		pn.goSafe(&wg, func() {
 			<-start
 			for x := 0; x < k; x++ {
 				started.Add(1)
@@ -309,13 +340,11 @@ func (w *world) execHW(f []string) (string, string) {
 					runtime.Gosched() // let the hookers in between
 				}
 			}
-		}()
+		})
 	}
 	for a := 0; a < hn; a++ {
 		a := a
-		wg.Add(1)
-		go func() {
-			defer wg.Done()
+		pn.goSafe(&wg, func() {
 			<-start
 			for b := 0; b < perHooker; b++ {
 				h := &hk{unhook: (a+b)%2 == 0, uf: -1, us: -1}
@@ -337,7 +366,7 @@ func (w *world) execHW(f []string) (string, string) {
 					h.us = started.Load()
 				}
 			}
-		}()
+		})
 	}
 	close(start)
 	if !waitTimeout(&wg) {
@@ -386,6 +415,61 @@ func (w *world) execHW(f []string) (string, string) {
 	return fmt.Sprintf("hw %d %d %d => %s", g, k, hn, strings.Join(out, " ")), "accept"
 }
 
+// execHC: G goroutines call Hook K times each at the same time, then one Trigger: every hook exactly once.
+func (w *world) execHC(f []string) (string, string) {
+	in := cutArrow(f)
+	p, ok := atoiAll(in)
+	if !ok || len(p) != 3 || p[0] < 1 || p[0] > 64 || p[1] < 1 || p[1] > 10000 || p[2] < 1 || p[2] > 10000 {
+		return "hc " + strings.Join(f, " "), "bad-op"
+	}
+	g, k, rounds := p[0], p[1], p[2]
+	calls, distinct, twice := 0, 0, 0
+	for round := 0; round < rounds; round++ {
+		e := event.New1[int]()
+		counts := make([]atomic.Int64, g*k)
+		var wg sync.WaitGroup
+		var pn panics
+		var start atomic.Bool
+		for a := 0; a < g; a++ {
+			a := a
+			pn.goSafe(&wg, func() {
+				for !start.Load() {
+					runtime.Gosched()
+				}
+				for b := 0; b < k; b++ {
+					i := a*k + b
+					e.Hook(func(int) { counts[i].Add(1) })
+				}
+			})
+		}
+		start.Store(true)
+		if !waitTimeout(&wg) {
+			w.fail("hang", "concurrent Hook callers did not finish", map[string]string{"oracle": "hang", "api": "event.Hook", "mode": "stress"})
+
+			break
+		}
+		pn.report(w, "hc")
+		e.Trigger(round)
+		for i := range counts {
+			c := int(counts[i].Load())
+			calls += c
+			if c >= 1 {
+				distinct++
+			}
+			if c > 1 {
+				twice++
+			}
+		}
+	}
+	if want := g * k * rounds; calls != want || distinct != want || twice != 0 {
+		w.fail("trigger-exactly-once", fmt.Sprintf("%d goroutines x %d concurrent Hook calls x %d rounds, then one Trigger per round: %d invocations of %d distinct hooks (%d hooks twice), expected every hook exactly once = %d", g, k, rounds, calls, distinct, twice, want),
+			map[string]string{"oracle": "concurrent-hook", "api": "event.Hook", "mode": "stress"})
+	}
+	w.res.nontrivial = true
+
+	return fmt.Sprintf("hc %d %d %d => %d %d %d", g, k, rounds, calls, distinct, twice), "accept"
+}
+
 func genStress(rng *hx.Rng, scale int) [][]string {
 	var cases [][]string
 	for i := 0; i < 12*scale; i++ {
@@ -400,6 +484,9 @@ func genStress(rng *hx.Rng, scale int) [][]string {
 	}
 	for i := 0; i < 12*scale; i++ {
 		cases = append(cases, []string{fmt.Sprintf("pt %d %d %d %d", 2+rng.Intn(6), hx.Pick(rng, []int{1, 3, 10, 100}), 1+rng.Intn(4), hx.Pick(rng, []int{20, 100, 300}))})
+	}
+	for i := 0; i < 6*scale; i++ {
+		cases = append(cases, []string{fmt.Sprintf("hc %d %d %d", 2+rng.Intn(7), hx.Pick(rng, []int{1, 2, 5, 30}), hx.Pick(rng, []int{50, 200, 500}))})
 	}
 	for i := 0; i < 8*scale; i++ {
 		cases = append(cases, []string{fmt.Sprintf("hw %d %d %d", 2+rng.Intn(4), hx.Pick(rng, []int{20, 200, 1000}), 1+rng.Intn(5))})
